@@ -142,11 +142,11 @@ func solveBatch1(c *FnCtx, obls []*Obligation, timeoutMs int) {
 			// attempt (a loaded machine must not turn a 2 s proof into an alarm)
 			if o.Status != "sat" && o.Status != "unsat" && timeoutMs < 30000 && atomic.AddInt32(&retriesLeft, -1) >= 0 {
 				o.Status, o.Model = "", ""
-				solveOne(c, o, timeoutMs*6)
+				solveOne(c, o, timeoutMs*3)
 				if o.Status == "sat" || o.Status == "unsat" {
-					o.Note += " (decided only on the retry with a 6x budget)"
+					o.Note += " (decided only on the retry with a 3x budget)"
 				} else {
-					o.Note += " (undecided also with a 6x budget)"
+					o.Note += " (undecided also with a 3x budget)"
 				}
 			}
 		}(o)
@@ -156,7 +156,7 @@ func solveBatch1(c *FnCtx, obls []*Obligation, timeoutMs int) {
 
 // retriesLeft: how many undecided obligations of one run get the longer second attempt (a change that
 // leaves many obligations undecided must not make the quick check slow)
-var retriesLeft int32 = 6
+var retriesLeft int32 = 3
 
 // solveOne races the three solvers on one obligation; the first definitive
 // answer (sat / unsat) wins and the others are cancelled.
